@@ -56,15 +56,17 @@ func (t ConfigureTransition) do(env *Environment) (err error) {
 
 	activeTasks := workflow.GetActiveTasks(wf)
 
+	// With no active tasks there is nothing to command and nobody would answer
 	if len(activeTasks) != 0 {
 		// err = t.taskman.ConfigureTasks(env.Id().Array(), tasks)
 		taskmanMessage := task.NewEnvironmentMessage(taskop.ConfigureTasks, env.Id(), activeTasks, nil)
 		t.taskman.MessageChannel <- taskmanMessage
-	}
-	incomingEv := <-env.stateChangedCh
-	// If some tasks failed to transition
-	if tasksStateErrors := incomingEv.GetTasksStateChangedError(); tasksStateErrors != nil {
-		return tasksStateErrors
+
+		incomingEv := <-env.stateChangedCh
+		// If some tasks failed to transition
+		if tasksStateErrors := incomingEv.GetTasksStateChangedError(); tasksStateErrors != nil {
+			return tasksStateErrors
+		}
 	}
 
 	env.sendEnvironmentEvent(&event.EnvironmentEvent{EnvironmentID: env.Id().String(), State: "CONFIGURED"})
